@@ -1647,6 +1647,9 @@ class AnsiString:
             idx = self._s.find(s, idx)
             split_idx_len.append((idx, len(s)))
             idx += len(s)
+            if sep is not None:
+                # The next piece starts after the separator (its text may also occur within the separator)
+                idx += len(sep)
 
         ansi_str_splits = []
         for idx, length in split_idx_len:
